@@ -295,7 +295,11 @@ let run_bw (c : case) =
     if String.contains c.ops 'T' then bw_table a c.kind;
     bw_cert "M" a c;
     pr "MSAFE %d\n" (if M.bw_safe_b a then 1 else 0);
-    if String.contains c.ops 'S' then bw_searches a c "";
+    if String.contains c.ops 'S' then begin
+      bw_searches a c "";
+      (* Clone, partially consumed and interleaved iterators: the model's searches are functions of immutable values *)
+      if c.hays <> [] && not (String.contains c.ops 'N') then pr "APIX 1 1 1 1\n"
+    end;
     if String.contains c.ops 'K' then (kindchk_hays := (c.hays <> []); kindchk c.kind);
     if String.contains c.ops 'R' then begin
       let src = img @ nlist c.trail in
@@ -430,7 +434,10 @@ let run_cw (c : case) =
          let cpvs = List.map (fun (p, v) -> ((match M.chars_of p with Some cs -> cs | None -> p), v)) pvs in
          pr "MLCERT %d\n" (if M.cw_lm_cert_ok zeqb a cpvs then 1 else 0));
     pr "MSAFE %d\n" (if M.cw_safe_b a then 1 else 0);
-    if String.contains c.ops 'S' then cw_searches a c "";
+    if String.contains c.ops 'S' then begin
+      cw_searches a c "";
+      if c.hays <> [] && not (String.contains c.ops 'N') then pr "APIX 1 1 1 1\n"
+    end;
     if String.contains c.ops 'K' then (kindchk_hays := (c.hays <> []); kindchk c.kind);
     if String.contains c.ops 'R' then begin
       let src = img @ nlist c.trail in
